@@ -19,6 +19,7 @@ type PropCfg struct {
 	NotDecided  []string `json:"not_decided"`
 	Bounded     []string `json:"bounded_standins"`
 	TypeChecks  []string `json:"type_checks"` // names of go/types-level obligation generators
+	NilDeref    bool     `json:"nil_deref"`   // also prove that pointers returned by calls are non-nil where dereferenced
 	Sweep       []string `json:"sweep"`       // packages (short path) whose contract-less functions get the safety obligations only
 }
 
@@ -320,6 +321,7 @@ func cmdCheck(args []string) int {
 	}
 	var results []*FnResult
 	var all []*VC
+	nilDerefOn = cfg.NilDeref
 	for _, name := range cfg.Functions {
 		fn := eng.fnByShort(name)
 		if fn == nil {
@@ -565,7 +567,7 @@ func oneLine(s string) string {
 // positionalKind: safety/frame obligations exist only if the code contains the construct they
 // guard (an index expression, a heap write, ...); their absence is not a failure.
 func positionalKind(name string) bool {
-	for _, k := range []string{"/bounds", "/div-by-zero", "/nil-map-write", "/typeassert", "/unreachable-panic", "/frame", "/lockset", "/lock-released"} {
+	for _, k := range []string{"/bounds", "/div-by-zero", "/nil-map-write", "/nil-deref", "/typeassert", "/unreachable-panic", "/frame", "/lockset", "/lock-released"} {
 		if strings.HasSuffix(name, k) {
 			return true
 		}
